@@ -122,6 +122,8 @@ func (f *FifoMapCache[K, V]) Delete(key K) {
 		partition, _ := f.partitions.Peek(partitionId)
 		if partition != nil && partition.Has(key) {
 			partition.Delete(key)
+			// forget where the key lived: a later Set must insert it as a new entry in the current partition
+			f.valuePartitionIndex.Delete(key)
 		}
 	}
 }
